@@ -2,4 +2,4 @@ module github.com/google/wuffs
 
 go 1.16
 
-require golang.org/x/image v0.24.0 // indirect
+require golang.org/x/image v0.24.0
